@@ -194,6 +194,11 @@ fn mean_ci<F: Fl>(case: &Value) -> Value {
                     s => panic!("style {}", s),
                 }
             });
+            if reg.is_none() {
+                // one-shot style: statistics from an equivalent register (observation only)
+                let mut s = Paired::default();
+                if let Ok(Ok(())) = catch_unwind(AssertUnwindSafe(|| s.extend(&a, &b))) { reg = Some(s); }
+            }
             if let Some(s) = reg {
                 stats["count"] = json!(s.sample_count());
                 stats["mean"] = stat(|| s.sample_mean());
@@ -241,6 +246,9 @@ fn mean_ci<F: Fl>(case: &Value) -> Value {
                     s => panic!("style {}", s),
                 }
             });
+            if reg.is_none() {
+                if let Ok(Ok(s)) = catch_unwind(AssertUnwindSafe(|| Unpaired::from_iter(&a, &b))) { reg = Some(s); }
+            }
             if let Some(s) = reg {
                 stats["count"] = json!(s.stats_a().sample_count());
                 stats["countb"] = json!(s.stats_b().sample_count());
